@@ -5692,14 +5692,14 @@ class Generator:
         # Static options like "NULL ON ERROR" are stored as strings, in contrast to "DEFAULT <expr> ON ERROR"
         empty = expression.args.get("empty")
         empty = (
-            f"DEFAULT {empty} ON EMPTY"
+            f"DEFAULT {self.sql(empty)} ON EMPTY"
             if isinstance(empty, exp.Expr)
             else self.sql(expression, "empty")
         )
 
         error = expression.args.get("error")
         error = (
-            f"DEFAULT {error} ON ERROR"
+            f"DEFAULT {self.sql(error)} ON ERROR"
             if isinstance(error, exp.Expr)
             else self.sql(expression, "error")
         )
